@@ -225,6 +225,10 @@ func validateRolloutSpecObjectRef(c *validateContext, workloadRef *appsv1beta1.O
 	if !util.IsSupportedWorkload(gvk) {
 		return field.ErrorList{field.Invalid(fldPath.Child("WorkloadRef"), workloadRef, "WorkloadRef kind is not supported")}
 	}
+	// ReplicaSet is a known kind only for walking owner chains; the controllers cannot release one
+	if gvk.Group == util.ControllerKindRS.Group && gvk.Kind == util.ControllerKindRS.Kind {
+		return field.ErrorList{field.Invalid(fldPath.Child("WorkloadRef"), workloadRef, "WorkloadRef kind ReplicaSet is not supported")}
+	}
 	if c.style == string(appsv1beta1.BlueGreenRollingStyle) {
 		for _, allowed := range blueGreenSupportWorkloadGVKs {
 			if gvk.Group == allowed.Group && gvk.Kind == allowed.Kind {
